@@ -17,12 +17,13 @@ RULE = ("token trees (exhaustive up to a node bound over tokens a/B/?x, random b
         "file; plus every single parenthesis deletion/insertion and trailing text.  Non-trivial = the tree "
         "has depth >= 2 and the text uses >= 2 distinct separators, or the text is a malformed variant. "
         "Distinct by (text, mode).")
-ASSUMPTIONS = ["tokens are ASCII; blanks are space, tab, CR, LF; a comment runs to the next LF and may hold any character but LF / lone CR",
+ASSUMPTIONS = ["tokens are ASCII plus a few non-ASCII letters (lower-cased with str.lower); blanks are space, tab, CR, LF; a comment runs to the next LF and may hold any character but LF / lone CR",
                "a bare top-level token (no parentheses) is not generated: the statement speaks of parenthesised tokens"]
 
 F_TRAILING = "C11-trailing-text"
 TOKS = ["a", "B", "?x"]
-ALPHA = "abcxyzABCXYZ0123456789-_?:=<>+*/."
+# a few non-ASCII letters: lower-casing leaves \u00df, \u00b5 and \u017f alone (case folding would not)
+ALPHA = "abcxyzABCXYZ0123456789-_?:=<>+*/." + "\u00df\u00c9\u00b5\u017f"
 # comment text: anything but a line end (LF; a lone CR is a line end for text files, so it is left out too)
 COMMENT_ALPHA = ("abcXYZ019 \t()();;:-_?'\"#|\\.,=" + "\x0b\x0c\x1c\x1d\x1e\x1f\x00\x7f\x85\xa0\u2028\u2029\u00e9\u3000")
 
